@@ -208,9 +208,15 @@ int cp_etrs_ver(size_t thres, const bn_t *td, const bn_t *y, size_t max,
 		for (i = 0; i < size; i++) {
 			flag &= bn_sign(s[i]->y) == RLC_POS && bn_cmp(s[i]->y, n) == RLC_LT;
 		}
-		/* Interpolating at zero through the first d points must give pp, and
-		 * through one point fewer must not (the threshold is exact). */
-		for (int k = d; k >= d - 1; k--) {
+		/* Each remaining point, together with the first d - 1, must
+		 * interpolate to pp at zero (all points are on the polynomial), and
+		 * the first d - 1 points alone must not (the threshold is exact). */
+		for (int last = d - 1; last <= max + size; last++) {
+			int k = (last < max + size ? d : d - 1);
+			if (k == d) {
+				bn_copy(_y[d - 1], s[last - max]->y);
+				ec_copy(_t[d - 1], s[last - max]->h);
+			}
 			ec_set_infty(w[0]);
 			for (i = 0; i < k; i++) {
 				for (int j = 0; j < k; j++) {
